@@ -89,13 +89,9 @@ class BayesianModelInference(Inference):
         list: List of np.array with each element representing the reduced
                 values correponding to the states in sc_values.
         """
-        try:
-            values = [
-                variable_cpd.get_state_no(variable_evid[i], sc[i])
-                for i in range(len(sc))
-            ]
-        except KeyError:
-            values = sc
+        # Every caller passes state numbers; looking them up as state names first picked the
+        # wrong slice when a variable has integer state names other than 0..card-1 in order.
+        values = sc
 
         slice_ = [slice(None) for i in range(len(variable_cpd.variables))]
         for i, index in enumerate(reduce_index):
